@@ -30,6 +30,12 @@ LTNext ==
            ELSE IF Ev.missing > 0 THEN PrintT(<<"MISMATCH", l, "linget", {"getMissedInstalledEntry"}>>)
            ELSE IF Ev.dup > 0 THEN PrintT(<<"MISMATCH", l, "linget", {"getDuplicateDuringReplace"}>>)
            ELSE TRUE)
+     ELSE IF Ev.ev = "linref"
+     \* DELETE of a next-hop (group) while the group (prefix) that refers to it is re-sent over and over: it is
+     \* referenced before, during and after every replace, so every DELETE is answered FAILED (C03, C11)
+     THEN (IF Ev.failed # "" THEN PrintT(<<"MISMATCH", l, "linref", {"linrefSetup"}>>)
+           ELSE IF Ev.accepted > 0 THEN PrintT(<<"MISMATCH", l, "linref", {"refDeletedWhileReferenced"}>>)
+           ELSE TRUE)
      ELSE IF Ev.ev # "lin" THEN TRUE
      ELSE IF ~Ev.completed THEN PrintT(<<"MISMATCH", l, "lin", {"linHang"}>>)
      ELSE IF LinearizableTo(RibOf(Ev.initial), HistOf(Ev.ops), RibOf(Ev.final)) THEN TRUE
